@@ -13,7 +13,10 @@ regenerating the stored Signature and every stored ciphertext of six real ETS fi
 * signature      = base64(first 16 octets of SHA-256(canonical)), canonical = depth-first walk:
                    0x01, str(element name), then for every attribute except xmlns/Signature in
                    ordinal name order str(name) str(value); 0x02 at the element end; finally
-                   str(base64(password hash)); str(x) = one length octet + utf-8 octets.
+                   str(base64(password hash)); str(x) = one length octet + utf-8 octets. For strings
+                   longer than 255 octets (e.g. Senders of >= 37 addresses) the length octet is the low
+                   octet of the length (len & 0xFF, what ETS / any writer streaming the length as one
+                   octet emits): `wrap=True` of canonical() / signature() / build_tree().
 
 Never imports the code under test. AES-CBC is built from single-block AES-ECB; the reader
 is a small hand-written tokenizer (no xml.* module), so that the validation against the
